@@ -61,6 +61,29 @@ def certOK (shape : List Nat) (h : List Rat) (p : Nat → Rat) (g : Nat → Nat 
 def certValue (shape : List Nat) (h : List Rat) (f p : Nat → Rat) : Rat :=
   sumTo (numCells shape) (fun c => p c * (vol h * f c))
 
+/-! ### exact dual of a rule with rational nodes: one dual vector `g c q` per cell and quadrature point -/
+
+/-- RT0 interpolation weights of the dual field: what cell `c` contributes to its upper (`dualHi`) and lower (`dualLo`) face
+of axis `a` -/
+def dualHi (nq : Nat) (wq : Nat → Rat) (ptq : Nat → List Rat) (g : Nat → Nat → Nat → Rat) (c a : Nat) : Rat :=
+  sumTo nq (fun q => wq q * (ptq q).getD a 0 * g c q a)
+def dualLo (nq : Nat) (wq : Nat → Rat) (ptq : Nat → List Rat) (g : Nat → Nat → Nat → Rat) (c a : Nat) : Rat :=
+  sumTo nq (fun q => wq q * (1 - (ptq q).getD a 0) * g c q a)
+
+/-- exact check of a per-point dual certificate (hypotheses of `C05.potential_lower_bound_rule`) -/
+def certRuleOK (shape : List Nat) (h : List Rat) (nq : Nat) (wq : Nat → Rat) (ptq : Nat → List Rat) (p : Nat → Rat)
+    (g : Nat → Nat → Nat → Rat) : Bool :=
+  ((List.range (numFaces shape)).all fun k =>
+    decide (vol h * (dualHi nq wq ptq g (conn shape k).1 (faceAxis shape k) + dualLo nq wq ptq g (conn shape k).2 (faceAxis shape k)) =
+      -(area h (faceAxis shape k) * (p (conn shape k).2 - p (conn shape k).1)))) &&
+  ((List.range (numCells shape)).all fun c => (List.range nq).all fun q =>
+    decide (sumTo shape.length (fun a => g c q a * g c q a) ≤ 1))
+
+/-- the corner rule `reference_cell_corners(dim)` (CONSTANT_SUBCELL_PROJECTION): corner `q < 2^dim` has coordinate `a` = bit
+`a` of `q`; every weight is `2^-dim` (the order of the corners is irrelevant for the cost) -/
+def cornerPt (dim q : Nat) : List Rat := (List.range dim).map fun a => (((q / 2 ^ a) % 2 : Nat) : Rat)
+def cornerW (dim : Nat) (_q : Nat) : Rat := 1 / ((2 ^ dim : Nat) : Rat)
+
 /-- `EMD.__call__` for a single-cell move of `value` by (`drow`, `dcol`) voxels: `cv2.EMD` returns the displacement
 length `√((dcol·dx)² + (drow·dy)²)` (total flow normalised to 1), rescaled by `integral · cell_volume`;
 returned here as the square of the result. -/
